@@ -43,7 +43,7 @@ def main():
     else:
         blocked = set()
         rounds = 0
-        reps = 1 if args.tier != 'thorough' else 12       # thorough: the same enumeration over more random data sets
+        reps = 1 if args.tier != 'thorough' else 6       # thorough: the same enumeration over more random data sets
         rep = 0
         while rep < reps:
             rounds += 1
